@@ -19,6 +19,7 @@ CLAUSE = CLAUSE + (" An unchecked decode result is not handed to another functio
 CLAUSE = CLAUSE + (" No decode-failure edge leaves an inner table loop of packet.c into the enclosing loop (cursor and index "
                    "would lose their lock step).")
 CLAUSE = CLAUSE + (" No decoder call's result is discarded (in-place vbi_unpar included).")
+CLAUSE = CLAUSE + (' An X/26 packet is appended only under equality of the collected triplet count with 13 x designation.')
 NOT_DECIDED = ("that a single-bit error is corrected to the sent value (Hamming arithmetic, test-hamm's domain); display of the "
                "formatted page; X/26 designation continuity semantics beyond the error edge.")
 
